@@ -16,7 +16,9 @@ This is mostly schedule enumeration: what is symbolic is where the link thread
 runs (flags preempt_<n>), the peer's receive window, the link MIU and payload
 octets.
 """
+import os
 import errno
+import random
 from env import coop
 import nfc.clf
 import nfc.dep
@@ -24,7 +26,6 @@ import nfc.llcp
 import nfc.llcp.llc as llcmod
 import nfc.llcp.tco as tco
 import nfc.llcp.pdu as pdu
-import nfc.llcp.err as err
 import nfc.snep.server
 import nfc.handover.server
 import ndef as real_ndef
@@ -197,6 +198,11 @@ class World(object):
                 except nfc.llcp.Error:
                     pass                # RW(R) == 0
                 L.collect()             # I PDU leaves, unacknowledged
+            elif st == 'est+queued':
+                try:
+                    L.send(s, sx.bytes("tx0", 2), DONTWAIT)
+                except nfc.llcp.Error:
+                    pass                # RW(R) == 0
             elif st == 'closewait':
                 L.dispatch(pdu.Disconnect(s.addr, PEER))
                 L.collect()             # DM leaves, DISC queued for recv()
@@ -219,6 +225,8 @@ class World(object):
             L.dispatch(pdu.UnnumberedInformation(40, PEER, sx.bytes("rx", 2)))
         elif st == 'connected':
             L.connect(s, PEER)
+        elif st == 'queued':
+            L.sendto(s, self.message(s, "tx0"), PEER, DONTWAIT)
         elif st == 'listen':
             L.listen(s, 1)
         elif st == 'listen+conn':
@@ -530,8 +538,8 @@ STATES = ['raw:unbound', 'raw:bound', 'raw:data', 'raw:closed',
           'ldl:unbound', 'ldl:bound', 'ldl:connected', 'ldl:data', 'ldl:closed',
           'dlc:unbound', 'dlc:bound', 'dlc:listen', 'dlc:listen+conn',
           'dlc:connecting', 'dlc:est', 'dlc:est+data', 'dlc:est+sent',
-          'dlc:closewait', 'dlc:disconnecting', 'dlc:closed',
-          'sd:fresh', 'sd:pending']
+          'dlc:est+queued', 'dlc:closewait', 'dlc:disconnecting', 'dlc:closed',
+          'raw:queued', 'ldl:queued', 'sd:fresh', 'sd:pending']
 ENDS = ['terminate', 'loop:local', 'loop:disrupt', 'loop:remote',
         'loop:ioerror', 'loop:timeout']
 # events of the conversation that precede the end of the link (second
@@ -544,6 +552,8 @@ CONN_EVENTS = {
                 'conn:ui'],
     'dlc:est+data': ['conn:disc', 'conn:frmr'],
     'dlc:est+sent': ['conn:disc', 'conn:frmr', 'conn:badseq'],
+    'dlc:est+queued': ['conn:disc', 'loop:symm'],
+    'raw:queued': ['loop:symm'],
     'dlc:closewait': ['conn:dm'],
     'dlc:disconnecting': ['conn:dm', 'conn:disc'],
     'raw:bound': ['conn:disc', 'conn:ui'],
@@ -603,11 +613,66 @@ def partitions(tier):
                 add("service", "%s:%s:%d:fine" % (server, body, q),
                     server=server, body=body, queued=q, fine=1,
                     scripts=[['tgt', ['loop:disrupt']], ['ini', ['terminate']]])
+    if not quick:
+        # beyond the systematic bound: VERIF_SEED-chosen scripts of three and
+        # four link steps (two or three events of the conversation, then the
+        # end of the link) = up to four preemptions
+        rng = random.Random("c09/%s" % os.environ.get("VERIF_SEED", "0"))
+        for st in sorted(CONN_EVENTS):
+            evs = sorted(set(CONN_EVENTS[st] + ['loop:symm']))
+            scripts = []
+            for k in range(6):
+                n = rng.choice([2, 2, 3])
+                sc = [rng.choice(evs) for j in range(n)] + [rng.choice(ENDS)]
+                if 'conn:ui' in sc[:-1] and st.startswith('dlc:est'):
+                    continue        # the link thread never gets past it
+                ent = [rng.choice(['ini', 'tgt']), sc]
+                if ent not in scripts:
+                    scripts.append(ent)
+            if scripts:
+                add("call_vs_link", "%s:random" % st, state=st,
+                    scripts=scripts)
     return parts
 
 
-MUST_REACH = ["later-calls-done", "spawned-thread-ran"]
-BOUNDS = {"quick": "tbd", "thorough": "tbd"}
-OUTSIDE = []
-ASSUMPTIONS = []
+WAITING = ['raw.recv', 'raw.recvfrom', 'raw.send', 'raw.sendto', 'raw.poll_recv',
+           'raw.poll_send', 'ldl.recv', 'ldl.recvfrom', 'ldl.send', 'ldl.sendto',
+           'ldl.poll_recv', 'ldl.poll_send', 'dlc.send', 'dlc.recv',
+           'dlc.recvfrom', 'dlc.accept', 'dlc.connect', 'dlc.connect_sn',
+           'dlc.close', 'dlc.poll_recv', 'dlc.poll_send', 'dlc.poll_acks',
+           'sd.resolve', 'sd.resolve_str', 'snep.listen', 'snep.serve',
+           'handover.listen', 'handover.serve']
+LOCKING = WAITING + ['raw.bind', 'raw.close', 'raw.setsockopt', 'raw.send_nb',
+                     'ldl.bind', 'ldl.close', 'ldl.connect', 'ldl.send_nb',
+                     'dlc.bind', 'dlc.listen', 'dlc.setsockopt', 'dlc.send_nb']
+_MUST = ["later-calls-done", "spawned-thread-ran", "woken-by-link-end"] + \
+    ["service:%s.%s" % (a, b) for a in ("snep", "handover")
+     for b in ("listen", "serve")] + \
+    ["call:%s.%s" % (k, c) for k in sorted(CALLS) for c in CALLS[k]] + \
+    ["pre:%s:call" % c for c in LOCKING] + \
+    ["pre:%s:acquire" % c for c in LOCKING] + \
+    ["pre:%s:wait" % c for c in WAITING] + \
+    ["pre:%s:twait" % c for c in ('raw.poll_recv_t', 'ldl.poll_recv_t',
+                                  'dlc.poll_recv_t', 'dlc.poll_acks_t')]
+MUST_REACH = {
+    "quick": _MUST,
+    "thorough": _MUST + ["pre:%s:line" % c for c in LOCKING] +
+    ["pre:dlc.getsockopt:line", "pre:dlc.getsockname:line"],
+}
+BOUNDS = {
+    "quick": "schedule enumeration, not data: 2 logical threads (one application call, the link thread). Application call: each of send (blocking and MSG_DONTWAIT), sendto, recv, recvfrom, accept, connect (by address and by name), listen, bind, getsockopt, setsockopt, getsockname/getpeername, resolve (bytes and str), poll('recv'/'send'/'acks') without and with time-out, close - on a socket of each suitable kind in each of 25 states reached by <= 5 real set-up operations (raw/ldl: unbound, bound, datagram queued for recv, PDU queued for sending, connected, closed; dlc: unbound, bound, listening with empty / filled backlog, a thread sleeping in connect(), established (passive open through the real listen/dispatch/accept), established with data queued, with an unacknowledged / a not yet collected I PDU (send window full when RW(R)=1), CLOSE_WAIT, a thread sleeping in close(), closed; service discovery fresh / request pending). Link thread: one step that ends the link out of {llc.terminate() called directly, run loop ended by the terminate callback (local choice), MAC exchange returns None (link disruption), DISC received (remote choice), IOError in the MAC (input/output error + SystemExit)} each run through the real run_as_initiator/run_as_target over a scripted MAC, optionally preceded by one event of the conversation delivered by one real run-loop iteration (DISC, DM, FRMR, I with wrong N(S), valid I, UI, CONNECT, CC for the socket under test, SYMM) = 2 preemptions. Preemption points: before the call, every lock acquisition while the application thread holds no lock, inside every Condition.wait(), after every wake-up; all enumerated. After the link ended 16-25 further calls on the same socket. Service bodies SnepServer._listen/_serve and HandoverServer.listen/serve with 0-2 queued connection requests / request fragments, link ended at every preemption point, threads they start run afterwards. Symbolic: where the link thread runs (flags), RW announced by the peer 0..15 (send window open/full), link MIU 128..2175 for connection-less sockets, payload octets, SNEP header version/length octets",
+    "thorough": "as quick with both roles (initiator/target run loop) x all 6 link-ending steps (adds NFC-DEP time-out in exchange) alone and after every listed conversation event (all 2-step scripts), VERIF_SEED-chosen scripts of 3-4 link steps (up to 4 preemptions) for 14 states, and for every state and call a second enumeration at source-line granularity: a preemption point before every line of nfc.llcp.llc/tco/socket and the two server modules that the application thread executes while it holds no lock (terminators: llc.terminate(), remote DISC)",
+}
+OUTSIDE = ["more than one application thread at a time (two calls racing on one socket, a second thread calling close() on a socket another thread waits on)",
+           "preemption of the link thread: a link step (one run-loop iteration, terminate()) is atomic, so interleavings of an application call with the *inside* of terminate()/dispatch()/collect() are not explored (e.g. bind() racing the loop over the service access points)",
+           "more than 2 link steps in quick / more than 4 in thorough; preemption inside a line (bytecode granularity) and, in quick, anywhere but lock acquisitions and waits",
+           "real OS scheduling, real timing of Condition.wait(timeout), fairness", "LLCP security (DPS exchange, encryption errors ending the run loop)",
+           "the return of clf.connect()/llc.run to its caller (C18) and the NFC-DEP deactivation inside terminate() (MAC is a stub)",
+           "application callbacks of the servers (process_put_request ...) blocking on their own"]
+ASSUMPTIONS = ["env.coop CoopThreading: RLock/Lock/Condition/Thread of the module attribute `threading` of nfc.llcp.tco, nfc.llcp.llc, nfc.snep.server, nfc.handover.server are replaced in both modes; logical threads in one OS thread; a link step runs to completion at a preemption point of the application thread; Condition.wait() without time-out forces the next link step (nothing else can wake the caller) and is 'left waiting for ever' when the script is exhausted and no notify on that condition happened since the wait began; wait(timeout) returns False after the virtual time-out unless a flag lets a link step run; notify wakes the single waiter; no spurious wake-ups",
+               "a link step that reaches Condition.wait() without time-out is reported as 'link thread blocked' (only an application thread could wake it; with one application call under test none does)",
+               "MAC below the run loop: instance of nfc.dep.Initiator/Target created without __init__, exchange() scripted (frame, None, IOError, nfc.clf.TimeoutError), deactivate() no-op; one link step = the real run loop left (BaseException) where it asks for the frame after the scripted one - a PDU collected for that exchange is dropped",
+               "sockets in ESTABLISHED state come from the real passive open (listen, dispatch CONNECT, accept); 'a thread sleeping in connect()/close()/resolve()' = the call made by the set-up thread and abandoned at its wait()",
+               "random.choice in ServiceDiscovery.resolve returns the first element; virtual clock (symx.envpatch)",
+               "ndef inside the two server modules: real ndeflib on concrete octets (adapter converts to bytes); threads started by a server body are recorded and run as application threads after the link has ended"]
 LIMITS = {"quick": dict(max_time=200), "thorough": dict(max_time=1200)}
